@@ -494,6 +494,34 @@ def _pyval(v):
     return "obj", type(v).__name__
 
 
+def _pydefault(kind, payload):
+    """Lean term of type Gen.ExportTables.PyDefault"""
+    if kind == "none":
+        return ".none"
+    if kind == "bool":
+        return f".bool {payload}"
+    if kind == "int":
+        return f".int ({payload})"
+    if kind == "float":
+        if payload == "nan":
+            return ".nan"
+        if payload in ("inf", "-inf"):
+            return f".inf {'true' if payload.startswith('-') else 'false'}"
+        n, _, d = payload.partition("/")
+        return f".float ({n}) {d or 1}"
+    if kind == "str":
+        return f".str {lean_str(payload)}"
+    if kind == "enum":
+        return f".enum {lean_str(payload)}"
+    if kind in ("list", "dict", "array"):
+        return {"list": ".emptyList", "dict": ".emptyDict", "array": ".emptyArray"}[kind]
+    if kind in ("obj", "other"):
+        return f".obj {lean_str(payload)}"
+    if kind == "varargs":
+        return ".varargs"
+    return ".absent"
+
+
 def _nondefault(cls, pname, default):
     """a value different from the default for probing which fields a __repr__ keeps"""
     name_map = {
@@ -549,7 +577,14 @@ def gen_export_tables():
     from fuzzylite.library import Representation
 
     out = ["/-! GENERATED by /verif/fv/tracer.py by introspection of the live `fuzzylite` – do not edit. -/", "",
-           "namespace Gen.ExportTables", ""]
+           "namespace Gen.ExportTables", "",
+           "/-- what `Class()` stores under the name of a constructor parameter -/",
+           "inductive PyDefault where",
+           "  | none | bool (b : Bool) | int (z : Int) | float (num : Int) (den : Nat) | nan | inf (neg : Bool)",
+           "  | str (s : String) | enum (s : String) | emptyList | emptyDict | emptyArray | obj (cls : String)",
+           "  | absent      -- the constructor does not store the parameter under its name",
+           "  | varargs",
+           "deriving DecidableEq, Repr", ""]
     rec = []
     orig = Representation.construction_arguments
 
@@ -586,7 +621,7 @@ def gen_export_tables():
                 else:
                     unprobed.append(f"{c.__name__}.{p.name}")
         prm_rows.append(f"({lean_str(c.__name__)}, [" + ", ".join(
-            f"({lean_str(n)}, {'true' if hd else 'false'}, {lean_str(k)}, {lean_str(pl)})" for n, hd, k, pl in rows) + "])")
+            f"({lean_str(n)}, {'true' if hd else 'false'}, {_pydefault(k, pl)})" for n, hd, k, pl in rows) + "])")
         # probe the __repr__ override
         try:
             d1 = c(**kwargs)
@@ -639,7 +674,7 @@ def gen_export_tables():
                           + ", ".join(lean_str(k) for k in added) + "])")
     out.append("/-- (class, [(parameter, has a default, kind of the value `Class()` stores under that name, payload)]);\n"
                "    kind `absent` = the constructor does not store the parameter under its name -/")
-    out.append("def ctorParams : List (String × List (String × Bool × String × String)) := [\n  "
+    out.append("def ctorParams : List (String × List (String × Bool × PyDefault)) := [\n  "
                + ",\n  ".join(prm_rows) + "]")
     out.append("/-- (class, positional flag passed by `__repr__`, fields of `vars(x)` never passed, conditionally dropped\n"
                "    fields with the probed condition, fields passed although not in `vars(x)`) -/")
